@@ -78,6 +78,7 @@ IResolve(n, sp, dm, ds) ==
     [] sp = "loc"  -> <<"local", "-", "-">>
     [] sp = "var"  -> Find(cur, n)                       \* runtime.resolve_var: no privacy check
     [] sp = "bind" -> IResolveBare(n, dm, ds)
+    [] sp = "redef" -> IResolveBare(n, dm, ds)
 
 (* ------------------------------ reads as built ---------------------------------------- *)
 Linkable(x) == x = cur \/ req[cur]
@@ -91,6 +92,7 @@ Impl(n, sp, m, dm, ds) ==
   CASE sp = "loc" -> LOCALV
     [] sp = "var" -> IF IsVar(r) THEN Ident(r[2], r[3]) ELSE r[2]
     [] sp = "bind" -> IF IsVar(r) /\ V(r[2], r[3]).fl = "dyn" THEN BOUNDV ELSE ANY
+    [] sp = "redef" -> IF IsVar(r) /\ r[2] = cur /\ V(r[2], r[3]).fl = "dyn" THEN BOUNDV ELSE ANY
     [] OTHER -> IF IsVar(r) THEN IValue(r[2], r[3], m, dm) ELSE r[2]
 
 (* ------------------------------ refinement -------------------------------------------- *)
